@@ -761,8 +761,9 @@ fn run_gtf(c: &Case) -> Obs {
     if problems.is_empty() {
         return o;
     }
-    if quote {
-        // class: some attribute value contains a double quote
+    if quote && (owned == "Panic" || diff_cols(&input, &lazy_n) == vec!["attributes"]) {
+        // class: some attribute value contains a double quote (repaired in /repo 7a3d67e: parse_string
+        // must skip escaped quotes) -- no longer a known finding
         return o.with_verdict(Err(("gtf-quote-in-value-not-reparsed".into(), problems.join(" ; "))));
     }
     let tag = if lazy_n == input && owned_n != input {
@@ -1547,7 +1548,7 @@ fn generate(rng: &mut Rng, tier: &str, w: &mut CaseWriter) {
         w.push("gtf", rec_args(r));
     }
     for i in 0..(300 * scale) {
-        let r = gen_gtf(rng, i % 10 == 0);
+        let r = gen_gtf(rng, i % 3 == 0);
         w.push("gtf", rec_args(&r));
     }
     // BED
